@@ -38,6 +38,7 @@ type walCase struct {
 	Compression int     `json:"compression"`
 	Ops         []walOp `json:"ops"`
 	NoClose     bool    `json:"no_close,omitempty"`
+	OddName     bool    `json:"odd_name,omitempty"` // directory names with glob metacharacters etc.
 	DirectIO    bool    `json:"direct_io,omitempty"` // block aligned writer (O_DIRECT itself is a declared stub); no sync appends by design
 	ReadBuf     int     `json:"read_buf,omitempty"`  // buffer of the reader factory (0: the library's default reader)
 	Symlink     bool    `json:"symlink,omitempty"`   // the log's base path is a symbolic link to its directory
@@ -99,6 +100,7 @@ func walGen(r *rand.Rand, thorough bool) walCase {
 			c.Ops = append(c.Ops, walOp{Kind: pick(r, "append", "sync"), Size: 50 + r.Intn(40)})
 		}
 	}
+	c.OddName = r.Intn(8) == 0
 	return c
 }
 
@@ -234,6 +236,7 @@ type walViolation struct {
 
 // walCheck runs one case and returns violations (empty if all fine).
 func walCheck(c *Ctx, wc walCase, tape *simrt.Tape, count bool) []walViolation {
+	c.oddNames = wc.OddName
 	dir := freshDir(c, "wal")
 	defer os.RemoveAll(dir)
 	run, err := walExec(dir, wc, tape)
